@@ -1,9 +1,21 @@
 package main
 
-// C06 — `helm template` through pkg/cmd (thorough tier).
+// C06 — `helm template` through pkg/cmd (thorough tier): the real cobra command
+// (newTemplateCmd, exported by the add-only hook pkg/cmd/zz_verif_template.go) runs against an
+// action.Configuration whose kube client is the real kube.Client in front of the counting API
+// server and whose release storage is the counting driver wrapper.  The chart is written to a
+// scratch directory with chartutil.SaveDir and loaded back by the command itself.
 
 import (
+	"bytes"
+	"fmt"
 	"math/rand"
+	"os"
+
+	"helm.sh/helm/v4/pkg/action"
+	chartutil "helm.sh/helm/v4/pkg/chart/v2/util"
+	helmcmd "helm.sh/helm/v4/pkg/cmd"
+	"helm.sh/helm/v4/pkg/storage"
 
 	"verif/harness/internal/eng"
 )
@@ -13,8 +25,74 @@ type c06Template struct {
 	Args     []string `json:"args,omitempty"` // extra command-line flags
 }
 
-func c06TemplateCases(_ *rand.Rand) []any { return nil }
+func c06RunTemplate(r *eng.Runner, op *eng.Op, w *c06Wide, t *c06Template) (so eng.StepObs, out string) {
+	d := &c06Drv{inner: r.Inner}
+	cfg := &action.Configuration{KubeClient: &c06Kube{r.Srv.Client()}, Releases: storage.Init(d),
+		Capabilities: chartutil.DefaultCapabilities.Copy()}
+	req0, mreq0 := r.Srv.Requests(), r.Srv.MutatingRequests()
+	var err error
+	func() {
+		defer func() {
+			if x := recover(); x != nil {
+				so.Panic = fmt.Sprint(x)
+			}
+		}()
+		dir, derr := os.MkdirTemp("", "c06-template-")
+		if derr != nil {
+			err = derr
+			return
+		}
+		defer os.RemoveAll(dir)
+		ch := c06Chart(op, w)
+		if err = chartutil.SaveDir(ch, dir); err != nil {
+			return
+		}
+		var buf bytes.Buffer
+		cmd := helmcmd.VerifNewTemplateCmd(cfg, &buf)
+		args := []string{eng.RelName, dir + "/" + ch.Name()}
+		if t.Validate {
+			args = append(args, "--validate")
+		}
+		args = append(args, t.Args...)
+		cmd.SetArgs(args)
+		cmd.SetOut(&buf)
+		cmd.SetErr(&buf)
+		cmd.SilenceUsage, cmd.SilenceErrors = true, true
+		err = cmd.Execute()
+		out = fmt.Sprintf("%d bytes", buf.Len())
+	}()
+	so.Outcome = c06Classify(err)
+	if err != nil {
+		so.ErrText = err.Error()
+	}
+	so.Ledger = c06Ledger(r.Inner)
+	so.Objs = r.Srv.Snapshot()
+	so.MutReqs = r.Srv.MutatingRequests() - mreq0
+	so.Reqs = r.Srv.Requests() - req0
+	so.SWrites = d.writes
+	return
+}
 
-func c06RunTemplate(_ *eng.Runner, _ *eng.Op, _ *c06Wide, _ *c06Template) (eng.StepObs, string) {
-	return eng.StepObs{Outcome: "err:other", ErrText: "helm template driver not built"}, ""
+// every subset of a few flags x validate on/off x empty/populated history x two charts
+func c06TemplateCases(r *rand.Rand) []any {
+	var out []any
+	flagSets := [][]string{
+		{}, {"--include-crds"}, {"--is-upgrade"}, {"--no-hooks"}, {"--skip-tests"}, {"--create-namespace"},
+		{"--dry-run=server"}, {"--dry-run=client"}, {"--dry-run=none"}, {"--dry-run=false"}, {"--atomic"}, {"--replace", "--take-ownership"},
+		{"--skip-crds", "--force"}, {"--render-subchart-notes", "--hide-notes"}, {"--disable-openapi-validation"},
+		{"--include-crds", "--create-namespace", "--atomic", "--dry-run=server", "--take-ownership"},
+	}
+	for _, sh := range []string{"empty", "deployed3"} {
+		for _, validate := range []bool{false, true} {
+			for _, fs := range flagSets {
+				for _, wide := range []*c06Wide{{}, {CRDs: true, Notes: true, Subchart: true}} {
+					op := &eng.Op{Kind: "install", ChartID: 7, ValsID: 1, Manifest: c06Manifest(r, 7), Hooks: c06HooksEveryEvent(r),
+						Flags: eng.Flags{DryRun: true}}
+					out = append(out, c06Case{Backend: "secret", Shape: sh, Setup: c06Setup(r, sh), Op: op, Wide: wide,
+						Template: &c06Template{Validate: validate, Args: fs}})
+				}
+			}
+		}
+	}
+	return out
 }
